@@ -87,13 +87,26 @@ def build_coq(target=None, timeout=3000):
 
 
 def prove(pid):
-    """Recompiles Properties_<pid>.v (after making its dependencies) and returns
-    (ok, theorems, assumptions, log).  theorems: list of names; assumptions: name -> text."""
-    fn = f"Properties_{pid}.v"
+    """Recompiles Properties_<pid>.v (and, if present, the analysis bridge Properties_<pid>_R.v) after making
+    their dependencies; returns (ok, theorems, assumptions, log).  theorems: list of names; assumptions: name -> text."""
+    files = [f"Properties_{pid}.v"]
+    if os.path.exists(os.path.join(COQ, f"Properties_{pid}_R.v")):
+        files.append(f"Properties_{pid}_R.v")
+    all_thms, all_ass, logs, good = [], {}, [], True
+    for fn in files:
+        ok, thms, ass, log = prove_file(fn)
+        all_thms += thms
+        all_ass.update(ass)
+        logs.append(log)
+        good = good and ok
+    return good, all_thms, all_ass, "\n".join(logs)
+
+
+def prove_file(fn):
     path = os.path.join(COQ, fn)
     if not os.path.exists(path):
         return False, [], {}, f"{fn} missing"
-    ok, log = build_coq(f"Properties_{pid}.vo")
+    ok, log = build_coq(fn[:-2] + ".vo")
     if not ok:
         return False, [], {}, log
     rc, out, dt = sh(f"timeout 900 coqc -Q . BSpl {fn}", cwd=COQ, timeout=960)
